@@ -6,6 +6,7 @@ package inproc
 
 import (
 	"bytes"
+	"encoding/json"
 	"errors"
 	"fmt"
 	"io"
@@ -29,10 +30,10 @@ type Record struct {
 }
 
 type Transport struct {
-	mu       sync.Mutex
-	hosts    map[string]http.Handler
-	Records  []*Record
-	seq      int
+	mu      sync.Mutex
+	hosts   map[string]http.Handler
+	Records []*Record
+	seq     int
 	// Before is called before a request is served; it may return an error (the
 	// round trip fails without reaching the mint) or panic (crash injection).
 	Before func(r *Record) error
@@ -42,6 +43,9 @@ type Transport struct {
 	// Rewrite may alter a response body before the client sees it.
 	Rewrite func(r *Record, body []byte) []byte
 	Keep    bool
+	// StripDLEQ: hosts whose successful responses are delivered without "dleq" objects
+	// (a mint that does not implement NUT-12).
+	StripDLEQ sync.Map
 }
 
 var global *Transport
@@ -154,6 +158,9 @@ func (t *Transport) RoundTrip(req *http.Request) (*http.Response, error) {
 	if t.Rewrite != nil {
 		body = t.Rewrite(rec, body)
 	}
+	if _, strip := t.StripDLEQ.Load(host); strip && status == 200 {
+		body = stripKey(body, "dleq")
+	}
 	return &http.Response{StatusCode: status, Status: http.StatusText(status), Header: header, Body: io.NopCloser(bytes.NewReader(body)),
 		ContentLength: int64(len(body)), Request: req, Proto: "HTTP/1.1", ProtoMajor: 1, ProtoMinor: 1}, nil
 }
@@ -184,4 +191,33 @@ func (t *Transport) Seq() int {
 	t.mu.Lock()
 	defer t.mu.Unlock()
 	return t.seq
+}
+
+func stripKey(body []byte, key string) []byte {
+	var v any
+	dec := json.NewDecoder(bytes.NewReader(body))
+	dec.UseNumber()
+	if dec.Decode(&v) != nil {
+		return body
+	}
+	var walk func(x any)
+	walk = func(x any) {
+		switch m := x.(type) {
+		case map[string]any:
+			delete(m, key)
+			for _, e := range m {
+				walk(e)
+			}
+		case []any:
+			for _, e := range m {
+				walk(e)
+			}
+		}
+	}
+	walk(v)
+	out, err := json.Marshal(v)
+	if err != nil {
+		return body
+	}
+	return out
 }
